@@ -6,6 +6,9 @@
 #ifndef C18_L
 #define C18_L 3
 #endif
+#ifndef C18_DEPTH
+#define C18_DEPTH 16
+#endif
 namespace {
    struct Stream_state { std::ios_base::fmtflags flags; std::streamsize width, precision; char fill; };
    Stream_state state_of(std::ostream& os) { return { os.flags(), os.width(), os.precision(), os.fill() }; }
@@ -100,5 +103,26 @@ extern "C" void h_indentation(void) {
    // inside a function definition and a class
    impl::Class* c = lx.make_class(*w->reg); c->id = w->I[0]; c->declare_field(*w->I[1], *w->T[0]);
    print_and_check(lx, [&](Printer& pp) { pp << xpr_decl(*w->reg->declare_type(*w->I[0], *c), true); }, true);
+   vp_done();
+}
+// deep nesting: statements nested to a symbolic depth 0..C18_DEPTH (kinds rotate through block, if, while, for-in-block, switch, try block
+// with handler, else-branch; the rotation starts at a symbolic phase), inside a function body inside a class: whatever the indentation
+// reached, no control byte is written, the stream state is untouched and the indentation returns to where it started
+extern "C" void h_deep_nesting(void) {
+   zoo::World* w = new zoo::World; auto& lx = w->lx; w->concrete = true;
+   unsigned depth = vp_pick(C18_DEPTH + 1), phase = vp_pick(7);
+   const ipr::Expr* body = lx.make_expr_stmt(*lx.make_id_expr(*w->I[0]));
+   for (unsigned i = 0; i < depth; ++i) {
+      switch ((i + phase) % 7) {
+      case 0: { impl::Block* b = lx.make_block(*w->reg); b->add_stmt(*body); b->add_stmt(*lx.make_return(*w->E[0])); body = b; break; }
+      case 1: body = lx.make_if(*w->E[0], *body); break;
+      case 2: { impl::While* x = lx.make_while(); x->control = w->E[0]; x->stmt = body; body = x; break; }
+      case 3: { impl::For* x = lx.make_for(); x->init = w->E[0]; x->cond = w->E[1]; x->inc = w->E[0]; x->stmt = static_cast<const ipr::Stmt*>(lx.make_expr_stmt(*w->E[1])); impl::Block* b = lx.make_block(*w->reg); b->add_stmt(*x); b->add_stmt(*body); body = b; break; }
+      case 4: { impl::Switch* x = lx.make_switch(); x->control = w->E[0]; x->stmt = body; body = x; break; }
+      case 5: { impl::Block* b = lx.make_block(*w->reg); b->add_stmt(*body); impl::Handler* h = b->new_handler(*w->I[1], *w->T[0]); h->body().add_stmt(*lx.make_expr_stmt(*w->E[1])); body = b; break; }
+      default: body = lx.make_if(*w->E[0], *lx.make_expr_stmt(*w->E[1]), *body); break;
+      }
+   }
+   print_and_check(lx, [&](Printer& pp) { pp << xpr_stmt(*body); }, true);
    vp_done();
 }
